@@ -962,6 +962,154 @@ def q_reference(roots, files, repl, by_id):
     return k, (k > n if repl[0] == "O" else k < n)
 
 
+# ------------------------------------------------------------------------------------------------
+# model-level hooks for C13 / C15 (the Coq theorems of Props_C13.v / Props_C15.v speak about the extracted model;
+# these hooks evaluate exactly those statements on the model for generated trees and tie them to the implementation)
+
+def _split_model_in(line):
+    f = line.split(" ")
+    files = [] if f[11] == "-" else f[11].split(";")
+    hashes = [] if f[12] == "-" else f[12].split(";")
+    return f, files, hashes
+
+
+def _join_model_in(f, files, hashes):
+    f = list(f)
+    f[11] = ";".join(files) or "-"
+    f[12] = ";".join(hashes) or "-"
+    return " ".join(f)
+
+
+def permute_model_in(line, rng, nd):
+    """the same case with another nondeterminism record and the scanned table in another order"""
+    f, files, hashes = _split_model_in(line)
+    order = rng.shuffle(list(range(len(files))))
+    newidx = {old: new for new, old in enumerate(order)}
+    files2 = [files[i] for i in order]
+    hashes2 = []
+    for e in hashes:
+        i, rest = e.split(":", 1)
+        hashes2.append("%d:%s" % (newidx[int(i)], rest))
+    f[0] = str(nd)
+    return _join_model_in(f, files2, rng.shuffle(hashes2))
+
+
+def fault_model_in(line, victim):
+    """(a) every chunk hash / transform of the paths of inode `victim` fails; (b) those paths are not scanned at all"""
+    f, files, hashes = _split_model_in(line)
+    vic = [i for i, e in enumerate(files) if tuple(e.split(":")[1:3]) == victim]
+    a = []
+    for e in hashes:
+        p = e.split(":")
+        if int(p[0]) in vic:
+            p[3] = "!"
+            if p[1] == "T":
+                p[2] = "!"
+        a.append(":".join(p))
+    keep = [i for i in range(len(files)) if i not in vic]
+    newidx = {old: new for new, old in enumerate(keep)}
+    b = ["%d:%s" % (newidx[int(e.split(":", 1)[0])], e.split(":", 1)[1]) for e in hashes if int(e.split(":", 1)[0]) not in vic]
+    return _join_model_in(f, files, a), _join_model_in(f, [files[i] for i in keep], b), [files[i].split(":")[0] for i in vic]
+
+
+def partition_of(line, base=None):
+    out = set()
+    for ln, h, ps in parse_groups(line):
+        if base is not None:
+            ps = [p[len(base):] if p.startswith(base) else p for p in ps]
+        out.add((ln, frozenset(ps)))
+    return out
+
+
+def model_schedule_check(ctx, n_trees):
+    """C13 hook: the extracted model under nd modes 1 and 2 and permuted scanned tables prints the report body of
+    fclones::group_files (= the model under mode 0)."""
+    eng = Engine(ctx, "C03")
+    specs = [gen_spec(ctx.rng.fork(), "C03", small=ctx.rng.chance(1, 2)) for _ in range(n_trees)]
+    res = [r for r in eng.run_specs(specs) if not r["out"].get("impl", "ERR").startswith(("ERR", "PANIC"))]
+    lines, owner = [], []
+    for r in res:
+        for nd in (1, 2):
+            lines.append(permute_model_in(r["out"]["model_in"], ctx.rng.fork(), nd))
+            owner.append((r, nd))
+    outs = core.run_lines_parallel(eng.model, lines) if lines else []
+    for (r, nd), o in zip(owner, outs):
+        ctx.count()
+        ctx.bump("model_schedule_hook", "nd=%d" % nd)
+        ctx.distinct(("model_schedule", json.dumps(r["spec"], sort_keys=True), nd), len(r.get("groups", [])) > 0)
+        if o != r["out"]["impl"]:
+            ctx.violation({"kind": "model_schedule_dependent"},
+                          "the extracted model under nondeterminism mode %d / a permuted scan order does not print the report body of "
+                          "group_files: model=%s impl=%s" % (nd, o[:300], r["out"]["impl"][:300]),
+                          replay_payload(r, {"nd": nd}), found_input=False)
+            return
+
+
+def model_fault_check(ctx, n_trees):
+    """C15 hook: in the extracted model, failing every read of one inode gives the partition of (a) the model and
+    (b) the implementation on the tree without that inode (single device kind, default filter, no roots: the setting
+    in which the partition cannot depend on when the file left the pipeline)."""
+    eng = Engine(ctx, "C03")
+    specs = []
+    for _ in range(n_trees):
+        s = gen_spec(ctx.rng.fork(), "C03", small=ctx.rng.chance(1, 2))
+        o = s["opts"]
+        o.update({"isolate": False, "match_links": False, "unique": False, "rf_under": None, "transform": None,
+                  "symbolic_links": False, "min_size": 0, "max_size": None})
+        if o.get("rf_over") == 0:
+            o["rf_over"] = None
+        s["env"]["mounts"] = []
+        s["symlinks"] = []
+        s["roots"] = [[p, h] for p, h in s["roots"] if not any(f["p"] == p for f in s["files"])] or [[s["dirs"][0], "plain"]]
+        specs.append(s)
+    res = [r for r in eng.run_specs(specs) if not r["out"].get("impl", "ERR").startswith(("ERR", "PANIC")) and r["out"]["scanned"]]
+    todo = []
+    for r in res:
+        sc = r["out"]["scanned"]
+        dev, ino = ctx.rng.choice(sc)[1:3]
+        victim = (str(dev), str(ino))
+        a, b, vpaths = fault_model_in(r["out"]["model_in"], victim)
+        base = os.fsencode(r["case"]["base_dir"]) + b"/"
+        vrel = set(unhex_path(p)[len(base):].decode("latin1") for p in vpaths)
+        spec2 = json.loads(json.dumps(r["spec"]))
+        spec2["files"] = [f for f in spec2["files"] if f["p"] not in vrel]
+        spec2["links"] = [l for l in spec2["links"] if l["p"] not in vrel]
+        # a hard link whose target file entry was removed becomes the file itself
+        have = set(f["p"] for f in spec2["files"])
+        for l in list(spec2["links"]):
+            if l["to"] not in have:
+                orig = [f for f in r["spec"]["files"] if f["p"] == l["to"]][0]
+                spec2["files"].append({"p": l["p"], "c": orig["c"]})
+                spec2["links"].remove(l)
+                have.add(l["p"])
+                for l2 in spec2["links"]:
+                    if l2["to"] == l["to"]:
+                        l2["to"] = l["p"]
+        todo.append((r, a, b, spec2, base, vrel))
+    if not todo:
+        return
+    ma = core.run_lines_parallel(eng.model, [t[1] for t in todo])
+    mb = core.run_lines_parallel(eng.model, [t[2] for t in todo])
+    impl = eng.run_specs([t[3] for t in todo])
+    for (r, a, b, spec2, base, vrel), oa, ob, ri in zip(todo, ma, mb, impl):
+        ctx.count()
+        ctx.bump("model_fault_hook", "victim_links=%d" % min(len(vrel), 4))
+        ctx.distinct(("model_fault", json.dumps(r["spec"], sort_keys=True), sorted(vrel)), len(r.get("groups", [])) > 0)
+        if oa.startswith("EXN") or ob.startswith("EXN"):
+            ctx.violation({"kind": "model_fault_hook_failed"}, "model failed: %s / %s" % (oa[:200], ob[:200]), replay_payload(r), found_input=False)
+            return
+        pa, pb = partition_of(oa, base), partition_of(ob, base)
+        base2 = os.fsencode(ri["case"]["base_dir"]) + b"/"
+        pi = partition_of(ri["out"].get("impl", "-"), base2) if not ri["out"].get("impl", "ERR").startswith(("ERR", "PANIC")) else None
+        if pa != pb or pa != pi:
+            ctx.violation({"kind": "model_fault_not_isolated"},
+                          "failing every read of one inode (%s) in the extracted model does not give the partition of the run without it: "
+                          "faulty=%s without(model)=%s without(implementation)=%s" % (sorted(vrel), sorted(map(str, pa))[:3], sorted(map(str, pb))[:3],
+                                                                                    sorted(map(str, pi or []))[:3]),
+                          replay_payload(r, {"victim_paths": sorted(vrel)}), found_input=False)
+            return
+
+
 COMMON_ASSUMPTIONS = [
     "collision-freedom of the final hash key on the contents present (explicit hypothesis of C01_sound / C03; cryptographic, not provable)",
     "Path::hash128 (MetroHash128 of the path) is injective on the paths present (deduplicate is modelled with path equality)",
